@@ -227,6 +227,24 @@ func (p *LeafPool) Confuse(t *rapid.T, pool []model.Expr, o ExprOpts) model.Expr
 		}
 		return model.Or(e, empty)
 	}
+	if rapid.IntRange(0, 9).Draw(t, "metamorphic") == 0 {
+		// twins that must give the same answer: De Morgan, double negation
+		// inside, an operand that is always true (AND) or never true (OR)
+		a, b := e, pick("mb")
+		never := model.Eq(firstCol(p), "\x01never\x02")
+		switch rapid.IntRange(0, 4).Draw(t, "metakind") {
+		case 0:
+			return model.Not(model.Or(model.Not(a), model.Not(b))) // = a AND b
+		case 1:
+			return model.Not(model.And(model.Not(a), model.Not(b))) // = a OR b
+		case 2:
+			return model.And(a, model.Not(never))
+		case 3:
+			return model.Or(never, a)
+		default:
+			return model.And(model.Not(model.Not(a)), b)
+		}
+	}
 	switch rapid.IntRange(0, 11).Draw(t, "confuser") {
 	case 0: // x&x
 		return model.And(e, e)
@@ -330,6 +348,13 @@ func (p *LeafPool) ErrorPrecedence(t *rapid.T) []model.Expr {
 		out = append(out, forms[(start+i*3)%len(forms)])
 	}
 	return out
+}
+
+func firstCol(p *LeafPool) string {
+	if len(p.Cols) > 0 {
+		return p.Cols[0]
+	}
+	return "nope"
 }
 
 // UnknownSometimes returns expression options in which roughly one expression
